@@ -1134,12 +1134,14 @@ impl<'a> Gen<'a> {
             let mysql = self.cfg.is(Dialect::Mysql);
             let action = match self.rng.below(4) {
                 0 => {
+                    // do_nothing_on with one key or a composite key
+                    let keys: Vec<String> = if self.rng.coin() { vec!["k".into(), "v".into()] } else { vec!["k".into()] };
                     if mysql {
-                        ConflictAction::NothingOn(vec!["k".into()])
+                        ConflictAction::NothingOn(keys)
                     } else if self.rng.coin() {
                         ConflictAction::Nothing
                     } else {
-                        ConflictAction::NothingOn(vec!["k".into()])
+                        ConflictAction::NothingOn(keys)
                     }
                 }
                 1 => ConflictAction::UpdateCols(vec!["v".into()]),
